@@ -8,6 +8,7 @@ CRATE = "e_dsu"
 DRIVER = "drv_dsu"
 DRIVER_MODULE = "Driver.Dsu"
 PROPS = "RlibModel.Props.C05"
+PROPS_SRC = "RlibModel.Props.C05Src"     # second tie: `src_*` theorems about the definitions regenerated from the source text
 PROFILES = ["release"]
 SHRINK_SEP = ";"
 RULE = ("cases are histories `n0 ; op ; ...` over un/par/check/size/reset/clone/swap/dump: (1) every union-only history (all orders and "
@@ -65,7 +66,7 @@ def extract(repo):
     return params, []
 
 
-def extra(ctx):
+def _diagnostic(ctx):
     """Logged diagnostic, never a verdict: can the forest be read from the Debug text, and do the private arrays coincide
     with the model's?  (The compared raw column contains return values only; `dump` contributes the depth predicate.)"""
     cov = ctx["coverage"]
@@ -90,3 +91,45 @@ def extra(ctx):
         diag["error"] = str(e)[:300]
     cov["forest_diagnostic"] = diag
     return []
+
+
+# ---- second tie: the whole crate regenerated from the source text on every run (tools/rs2lean_typed.py) -----------------------
+ASSUMPTIONS.append(
+    "second tie: new/reset/par/un/check/size of the hand-written model are proved equal (theorems src_*_eq_model, through the embedding "
+    "Nat -> Int of the two arrays) to the definitions that tools/rs2lean_typed.py regenerates from the text of rlib/dsu/src/lib.rs on every "
+    "run (Generated/DsuSrc.lean: Vec<usize> = Array Int with checked indexing, `+=` = checked usize addition, recursion and `for` loops on "
+    "fuel); hypotheses: reset needs fuel > n; un is stated for states whose two vectors have the same length and in which the sum of any two "
+    "stored sizes fits usize (the model does not have that overflow check); par/un/check/size are equal for every fuel except that where the "
+    "model, out of fuel at an out-of-range vertex, answers index the generated text answers fuel; trusted there: the translator and its reading of Vec (Generated/VecPrelude.lean), derived Clone/Debug are not translated")
+MANIFEST["technique"] += " + source-to-Lean translation of rlib/dsu/src/lib.rs regenerated and proved equal to the model on every run"
+
+_extract_layout = extract
+
+
+def extract(repo):
+    """The informational layout (above), then the translation of <repo>/rlib/dsu/src/lib.rs into Generated/DsuSrc.lean (written only
+    when its text changes).  A construct outside the translator's subset is a broken correspondence; the generated file then has no
+    definitions, so the src_* theorems stop compiling as well (never a stale file left in place)."""
+    import sys
+    params, problems = _extract_layout(repo)
+    verif = os.path.dirname(os.path.dirname(os.path.abspath(__file__)))
+    tools = os.path.join(verif, "tools")
+    if tools not in sys.path:
+        sys.path.insert(0, tools)
+    import rs2lean_typed
+    rel = "rlib/dsu/src/lib.rs"
+    fns = ["new", "reset", "par", "un", "check", "size"]
+    out = os.path.join(verif, "lean", "RlibModel", "Generated", "DsuSrc.lean")
+    info, p2 = rs2lean_typed.run(os.path.join(repo, rel), out, "Rlib.DsuSrc", rel, ID, "DSU", fns)
+    params.update({"translated_from": rel, "translated_functions": info.get("functions", []), "translated_loops": info.get("loops", []),
+                   "not_translated": ["#[derive(Clone, Debug)] (taken at face value: clone = the identity on values)"],
+                   "generated_file": "lean/RlibModel/Generated/DsuSrc.lean", "generated_file_rewritten": info.get("rewritten", False)})
+    return params, problems + p2
+
+
+def extra(ctx):
+    """The logged diagnostic, then a plain-words verdict on the second tie when the src_* proofs did not build."""
+    out = list(_diagnostic(ctx))
+    import rs2lean
+    ok = bool(ctx["params"].get("translated_functions"))
+    return out + rs2lean.tie_findings(["RlibModel/Generated/DsuSrc.lean"], "RlibModel/Lemmas/DsuSrc.lean", ok, "rlib/dsu/src/lib.rs")
